@@ -492,8 +492,16 @@ func (e *Exec) unboxIface(t types.Type, iv string) string {
 func (e *Exec) locAddrTerm(l *Loc) string {
 	switch l.Kind {
 	case LField:
-		f := e.sc.declFun("addr_"+l.Map, []string{"Int"}, "Int")
-		return app(f, l.Base)
+		name := "addr_" + l.Map
+		if !e.sc.declared[name] {
+			e.sc.declFun(name, []string{"Int"}, "Int")
+			e.sc.declFun(name+"_inv", []string{"Int"}, "Int")
+			e.sc.declFun("root", []string{"Int"}, "Int")
+			e.sc.declFun("emb_tag", []string{"Int"}, "Int")
+			tag := e.sc.typeTag(types.NewPointer(types.NewTuple(types.NewVar(0, nil, name, types.Typ[types.Int]))))
+			e.sc.axiom(name, fmt.Sprintf("(forall ((r Int)) (! (and (= (%s_inv (%s r)) r) (= (emb_tag (%s r)) %s) (< (%s r) 0) (= (root (%s r)) (root r))) :pattern ((%s r))))", name, name, name, tag, name, name, name))
+		}
+		return app(name, l.Base)
 	case LElem:
 		f := e.sc.declFun("addr_elem", []string{"Int", "Int"}, "Int")
 		return app(f, l.Base, l.Idx)
@@ -521,6 +529,10 @@ func (e *Exec) instr(fr *Frame, st *State, in ssa.Instruction) {
 			e.errorf("%s: field address of slice element of struct type is not modelled (%s)", fr.fn.Name(), e.pos(x.Pos()))
 			fr.regs[x] = e.fresh(st, "fa", x.Type())
 			return
+		}
+		if base.Loc != nil && base.Loc.Kind == LField {
+			// address of a by-value library struct stored in a field (e.g. &s.pool of type sync.Pool)
+			base = Val{T: e.locAddrTerm(base.Loc), Typ: base.Typ, NonNil: true, Prov: base.Loc.Prov, Root: base.Loc.Root}
 		}
 		if e.sc.opaqueStruct(stT) {
 			// field of a library struct: opaque box keyed by object and field
@@ -711,7 +723,8 @@ func (e *Exec) instrAlloc(fr *Frame, st *State, x *ssa.Alloc) {
 		m := e.elemHeap(at.Elem())
 		e.hset(st, m, sto(e.hget(st, m), arr, e.sc.zeroOf(t)))
 		fr.regs[x] = Val{T: arr, Typ: x.Type(), NonNil: true, Loc: &Loc{Kind: LArray, Base: arr, Typ: t}}
-	case x.Heap:
+	case x.Heap || isStructT(t):
+		// (library structs held by value get an object identity too, so that their fields can be addressed)
 		ref := e.alloc(st)
 		m := e.boxHeap(t)
 		e.hset(st, m, sto(e.hget(st, m), ref, e.sc.zeroOf(t)))
